@@ -43,6 +43,8 @@ OBLIGATIONS = [
     "Grog.C20.printedDistinct_of_labels",
     "Grog.Compose.reexec_downstream",
     "Grog.Compose.edit_predicts",
+    "Grog.Compose.edit_predicts_file",
+    "Grog.Compose.downstream_path",
 ]
 ASSUMPTIONS = [
     "labels of distinct nodes are distinct (BuildNodeMap is keyed by label) — hypothesis LabelsDistinct of the exactness theorems",
@@ -75,7 +77,9 @@ def ref_query(req, q):
         preds = [G.ref_pattern(p, req["cur"]) for p in req["patterns"]]
         if any(f is None for f in preds):
             return None
-        keep = [i for i, n in enumerate(nodes) if G.ref_matches_filters(n, preds, req["tags"], req["exclude"], req["type"]) and plat[i]]
+        # `list`: an alias is listed iff its label matches the patterns and the target it points to passes the other filters
+        keep = [i for i in range(len(nodes))
+                if all(G.ref_node_selected(nodes, es, i, preds, req["tags"], req["exclude"], req["type"], req["platform"], req["all_platforms"]))]
     else:
         fwd = q["k"] == "rdeps"
         if q["t"]:
